@@ -83,7 +83,7 @@ TotalCases(sh) ==
             {CaseOf(FileText(<<RecOf(d, Shoulds[2], <<>>, es), RecOf(T0, "1h!", <<>>, <<E("30m", "today")>>)>>), NowOf(T0, m), TotalRuns)
                 : d \in dates, m \in mins}
         ELSE IF twoOpen \/ (~Pick(sh.a * 3 + sh.b, 3, 1) /\ sh.b # 0) THEN {}
-        ELSE {CaseOf(FileText(<<RecOf(d, Shoulds[s], <<>>, es), RecOf(T0 - 5, Shoulds[1 + (s % 5)], <<"other">>, <<E("1h", "")>>),
+        ELSE {CaseOf(FileText(<<RecOf(d, Shoulds[s], <<>>, es), RecOf(T0 - 5, Shoulds[1 + (s % 5)], <<"other: 50% done, %d %s %v 100%">>, <<E("1h", "5% \\n \"q\" <b> & 'x'")>>),
                                RecOf(d, "", <<>>, <<E("-15m", "dup date")>>), RecOf(T0, "1h!", <<>>, <<E("30m", "today")>>)>>),
                      NowOf(T0, m), TotalRuns)
                 : d \in dates, m \in mins, s \in {ss \in 1..5 : Pick(ss + sh.a, 5, 2)}}
@@ -131,7 +131,7 @@ RefDates == <<Ord(2020, 3, 15), Ord(2020, 1, 1), Ord(2021, 1, 3), Ord(2020, 3, 1
 Offsets == <<-400, -366, -95, -35, -29, -8, -7, -6, -1, -1, 0, 0, 1, 6, 7, 31>>     \* some dates twice
 FilterFile(ref) ==
     [i \in 1..Len(Offsets) |->
-        LET r == RecOf(ref + Offsets[i], "", IF i % 4 = 0 THEN <<"day #rec=R" \o NatStr(i % 3) \o " #all">> ELSE <<>>,
+        LET r == RecOf(ref + Offsets[i], IF i % 2 = 0 THEN "8h!" ELSE IF i % 5 = 0 THEN "-30m!" ELSE "", IF i % 4 = 0 THEN <<"day #rec=R" \o NatStr(i % 3) \o " #all">> ELSE <<>>,
                        <<E("1h", IF i % 2 = 0 THEN "#a #b=1" ELSE "#B=2 x"), E("8:00 - 9:00", IF i % 3 = 0 THEN "#a=x" ELSE ""),
                          E("-30m", "#c"), E("10:00 - ?", "#open")>>)
         IN  IF i % 3 = 1 THEN Slashed(r) ELSE r]      \* both date notations in one file
